@@ -249,9 +249,7 @@ where
                     Ok(p)
                 }
                 XRef::Stream {stream_id, index} => {
-                    if !flags.contains(ParseFlags::STREAM) {
-                        return Err(PdfError::PrimitiveNotAllowed { found: ParseFlags::STREAM, allowed: flags });
-                    }
+                    // `flags` describes the object that is wanted, not the object stream that contains it
                     // use get to cache the object stream
                     let obj_stream = resolve.get::<ObjectStream>(Ref::from_id(stream_id))?;
 
